@@ -218,6 +218,7 @@ class Instance:
     wall: float = None           # wall-clock limit of the whole instance (s)
     native_n: int = 8            # native run-time evaluations of the same contract in a proof instance (bounded stand-in)
     scales: tuple = (1.0,)       # input magnitudes cycled through by the native evaluations
+    budget: float = None         # total solver seconds of the instance (default max(90, 6*timeout))
     shard_depth: int = 0         # > 0: split the path exploration over worker processes by decision prefixes of this length
 
     @property
@@ -254,6 +255,7 @@ class Evaluator:
         self.c = c
         self.env = dict(env)
         self.memo = {}
+        self._absmemo = {}
         self._busy = set()
 
     def var(self, name):
@@ -365,13 +367,23 @@ class Evaluator:
         raise ValueError(op)
 
     def _mag(self, n):
-        """Magnitude of the largest summand of a term (conditioning of the comparison)."""
-        if n.op == '+':
-            return max(self._mag(n.args[0]), self._mag(n.args[1]))
-        if n.op == 'neg':
-            return self._mag(n.args[0])
-        v = self(n)
-        return abs(v) if isinstance(v, float) and math.isfinite(v) else 0.0
+        """Evaluation with absolute values (|a|+|b|, |a||b|): the scale of the rounding error of n."""
+        m = self._absmemo
+        r = m.get(n.id)
+        if r is not None:
+            return r
+        op = n.op
+        if op == '+':
+            r = self._mag(n.args[0]) + self._mag(n.args[1])
+        elif op == '*':
+            r = self._mag(n.args[0]) * self._mag(n.args[1])
+        elif op == 'neg':
+            r = self._mag(n.args[0])
+        else:
+            v = self(n)
+            r = abs(v) if isinstance(v, float) and math.isfinite(v) else 0.0
+        m[n.id] = r
+        return r
 
 
 def concretize(x, ev):
@@ -418,11 +430,19 @@ def native_run(inst, env, seed=0, writable=False, scale=None):
             if isinstance(a, np.ndarray):
                 a.flags.writeable = True
     before = _snapshot(B.arrays)
+    saved = []
     try:
+        # observation wrappers of the instance (recording stubs) are active in native runs too
+        for mod, name, f in (inst.patches() if inst.patches else []):
+            saved.append((mod, name, getattr(mod, name)))
+            setattr(mod, name, f)
         with np.errstate(all='ignore'):
             out = ('ok', inst.call(inp))
     except Exception as e:  # noqa
         out = ('exc', e)
+    finally:
+        for mod, name, orig in reversed(saved):
+            setattr(mod, name, orig)
     res['outcome'] = out
     res['mutated'] = [k for k, b in before.items()
                       if not np.array_equal(b, B.arrays[k], equal_nan=True)]
@@ -503,6 +523,7 @@ def run_instance(inst, tier='quick', seed=0, replay_dir=None, prefix=None, first
         'backends': {}, 'sample_obligation': None, 'error': None, 'tags': list(inst.tags),
     }
     timeout = inst.timeout * (4.0 if tier == 'thorough' else 1.0)
+    budget_total = inst.budget if inst.budget else max(90.0, 6.0 * timeout)     # solver seconds per instance (shard)
     patches = inst.patches() if inst.patches else []
     holder = {}
 
@@ -541,6 +562,27 @@ def run_instance(inst, tier='quick', seed=0, replay_dir=None, prefix=None, first
             rep['obligations'].append({'name': name, 'status': st, 'time': 0.0, 'backend': 'dedup', 'kind': kind})
             return None
         mv = {n: k for n, k in c.inputs.items()}
+        # ---- cheap falsification first: the goal evaluated at the concrete samples that follow this path
+        if kind == 'ensures' and goal is not E.FALSE:
+            for env in conc_samples:
+                try:
+                    ev = Evaluator(c, env)
+                    if not all(ev(f) for f in (c.path if path_len is None else c.path[:path_len])):
+                        continue
+                    if ev.approx(goal, 1e-7) is False:
+                        seen_q[sig] = 'failed'
+                        rep['obligations'].append({'name': name, 'status': 'failed', 'time': 0.0,
+                                                   'backend': 'concrete-refutation', 'kind': kind, 'nassert': len(q)})
+                        rep['backends']['concrete-refutation'] = rep['backends'].get('concrete-refutation', 0) + 1
+                        return {'obligation': name, 'model': {k: v for k, v in env.items() if not k.startswith('#')},
+                                'query': q, 'has_uf': False, 'kind': kind, 'backend': 'concrete-refutation'}
+                except Exception:  # noqa  evaluation problems never decide anything
+                    continue
+        if rep['solver_time'] > budget_total:
+            seen_q[sig] = 'undecided'
+            rep['obligations'].append({'name': name, 'status': 'undecided', 'time': 0.0, 'backend': 'none', 'kind': kind})
+            rep['undecided'].append({'obligation': name, 'reason': 'solver budget of the instance exhausted'})
+            return None
         qcore = None
         if kind == 'ensures' and goal.op != 'false':
             qcore, _ = solve.build_query(c, goal, hints=hints, core=True)
